@@ -1,3 +1,4 @@
+Set Default Timeout 20.
 From Krp Require Import Tactics Prelude Fixed FMap Types Env Registry Cw20 Hub Inv HubFrame.
 Open Scope N_scope.
 
@@ -38,7 +39,41 @@ Proof.
   - intros ->. apply Hnz. reflexivity.
   - subst m. rewrite N.mul_comm. apply N.div_mul. exact D_nz.
 Qed.
-Set Default Timeout 10.
+
+(** ** the reported rate: backing over claims *)
+Lemma exchange_rate_some B S Q r : exchange_rate B S Q = Some r -> r = rate_of B (S + Q).
+Proof.
+  unfold exchange_rate, rate_of. intros H. bind_inv H as c Hc. apply add128_some in Hc. subst c.
+  destruct ((B =? 0) || (S + Q =? 0)); [inversion H; reflexivity|].
+  apply ratio_some in H. tauto.
+Qed.
+
+(** a synchronised rate below 1 means the pool is strictly under-backed *)
+Lemma rate_below_one B C : rate_of B C < D -> 0 < B /\ B < C.
+Proof.
+  unfold rate_of. destruct ((B =? 0) || (C =? 0)) eqn:E; [lia|]. intros H.
+  assert (HB : B <> 0) by lia. assert (HC : C <> 0) by lia. split; [lia|].
+  destruct (N.lt_ge_cases B C) as [Hlt|Hge]; [exact Hlt|exfalso].
+  assert (D <= B * D / C); [|lia].
+  apply N.div_le_lower_bound; [exact HC|]. rewrite (N.mul_comm C D), (N.mul_comm B D).
+  apply N.mul_le_mono_l. exact Hge.
+Qed.
+
+Lemma rate_le_one B C : B <= C -> rate_of B C <= D.
+Proof.
+  unfold rate_of. intros H. destruct ((B =? 0) || (C =? 0)) eqn:E; [lia|].
+  assert (HC : C <> 0) by lia.
+  apply N.div_le_upper_bound; [exact HC|]. rewrite (N.mul_comm C D), (N.mul_comm B D).
+  apply N.mul_le_mono_l. exact H.
+Qed.
+
+(** dividing by a rate in (0,1] never gives less than the amount *)
+Lemma ddiv_ge p r : r <> 0 -> r <= D -> p <= p * D / r.
+Proof.
+  intros Hr Hle. apply N.div_le_lower_bound; [exact Hr|]. rewrite (N.mul_comm r p).
+  apply N.mul_le_mono_l. exact Hle.
+Qed.
+
 Lemma floor_pair_abs B c x r q :
   c <> 0 -> x <= D -> B * D < (r + 1) * c -> x * r < (q + 1) * D -> x * B < (q + 2) * c.
 Proof.
@@ -79,7 +114,7 @@ Proof.
   replace (a - x) with e in Hfee by lia. replace (B - q) with t by lia.
   assert (Hc : 0 < c) by lia.
   assert (Hk : t * c < (R + 2) * c).
-  { assert (H1 : B * c + e * B <= c * R + x * B).
+  { assert (H1 : B * c <= c * R + x * B).
     { assert (E1 : B * c = B * x + B * e + B * R) by (rewrite HR, He; lia).
       assert (E2 : c * R = B * R + g * R) by (rewrite Hg; lia). lia. }
     assert (E3 : t * c + q * c = B * c) by (rewrite Ht; lia).
@@ -94,4 +129,354 @@ Lemma redeem_dust B c a x :
 Proof.
   intros Hc HB Ha Hx HxD Hfee.
   apply (redeem_dust_abs B c a x); try assumption. apply floor_pair; assumption.
+Qed.
+
+(** ** the three fee computations, copied verbatim from the handlers (the handler theorems below
+    show by conversion that these are the blocks the handlers run) *)
+Definition fee_mint_block (S Q B p m f : N) : result N :=
+  do max_fee <- mulU m f;
+  do a1 <- add128 S m;
+  do a2 <- add128 a1 Q;
+  do b1 <- add128 B p;
+  do required <- sub128 a2 b1;
+  sub128 m (peg_fee max_fee required).
+
+Definition fee_unbond_block (S Q B amount f : N) : result N :=
+  do max_fee <- mulU amount f;
+  do c <- add128 S Q;
+  do required <- sub128 c B;
+  sub128 amount (peg_fee max_fee required).
+
+Definition fee_conv_block (S Q B amount f : N) : result N :=
+  do max_fee <- mulU amount f;
+  do c <- add128 S Q;
+  do gap <- sub128 c B;
+  do required <- (if B =? 0 then Some gap
+                  else do rest <- sub128 c amount; mul_ratio gap rest B);
+  sub128 amount (peg_fee max_fee required).
+
+(** the caps *)
+Definition required_mint (S Q B p m : N) : N := (S + m + Q) - (B + p).
+Definition required_unbond (S Q B : N) : N := (S + Q) - B.
+Definition required_conv (S Q B amount : N) : N :=
+  if B =? 0 then (S + Q) - B else ((S + Q) - B) * ((S + Q) - amount) / B.
+
+Lemma fee_mint_block_spec S Q B p m f mint :
+  fee_mint_block S Q B p m f = Some mint ->
+  B + p <= S + m + Q /\
+  exists fee, fee = N.min (m * f / D) (required_mint S Q B p m) /\ fee <= m /\ mint = m - fee.
+Proof.
+  unfold fee_mint_block, peg_fee, required_mint. intros H.
+  bind_inv H as mx Hmx. bind_inv H as a1 Ha1. bind_inv H as a2 Ha2. bind_inv H as b1 Hb1.
+  bind_inv H as rq Hrq.
+  apply mulU_some in Hmx. apply add128_some in Ha1, Ha2, Hb1. apply sub128_some in Hrq, H.
+  subst mx a1 a2 b1. destruct Hrq as [Hle ->]. destruct H as [Hfee ->].
+  split; [exact Hle|]. eexists. split; [reflexivity|]. split; [exact Hfee | reflexivity].
+Qed.
+
+Lemma fee_unbond_block_spec S Q B amount f awf :
+  fee_unbond_block S Q B amount f = Some awf ->
+  B <= S + Q /\
+  exists fee, fee = N.min (amount * f / D) (required_unbond S Q B) /\ fee <= amount /\
+              awf = amount - fee.
+Proof.
+  unfold fee_unbond_block, peg_fee, required_unbond. intros H.
+  bind_inv H as mx Hmx. bind_inv H as c Hc. bind_inv H as rq Hrq.
+  apply mulU_some in Hmx. apply add128_some in Hc. apply sub128_some in Hrq, H.
+  subst mx c. destruct Hrq as [Hle ->]. destruct H as [Hfee ->].
+  split; [exact Hle|]. eexists. split; [reflexivity|]. split; [exact Hfee | reflexivity].
+Qed.
+
+Lemma fee_conv_block_spec S Q B amount f awf :
+  fee_conv_block S Q B amount f = Some awf ->
+  B <= S + Q /\ (B <> 0 -> amount <= S + Q) /\
+  exists fee, fee = N.min (amount * f / D) (required_conv S Q B amount) /\ fee <= amount /\
+              awf = amount - fee.
+Proof.
+  unfold fee_conv_block, peg_fee, required_conv. intros H.
+  bind_inv H as mx Hmx. bind_inv H as c Hc. bind_inv H as gap Hgap. bind_inv H as rq Hrq.
+  apply mulU_some in Hmx. apply add128_some in Hc. apply sub128_some in Hgap, H.
+  subst mx c. destruct Hgap as [Hle ->]. destruct H as [Hfee ->].
+  split; [exact Hle|].
+  destruct (B =? 0) eqn:HB.
+  - inversion Hrq; subst rq. split; [lia|].
+    eexists. split; [reflexivity|]. split; [exact Hfee | reflexivity].
+  - bind_inv Hrq as rest Hrest. apply sub128_some in Hrest. destruct Hrest as [Ha ->].
+    apply mul_ratio_some in Hrq. destruct Hrq as [_ ->]. split; [intros _; exact Ha|].
+    eexists. split; [reflexivity|]. split; [exact Hfee | reflexivity].
+Qed.
+
+(** ** item 4: under E1 magnitudes the fee computations cannot fail when the synchronised rate is
+    below 1 — in particular the raw subtractions [claims + mint - (backing + payment)] *)
+Lemma fits_big x : x <= D * D + 2 * D -> fits128 x = true.
+Proof.
+  intros H. unfold fits128. apply N.leb_le. eapply N.le_trans; [exact H|]. vm_compute. discriminate.
+Qed.
+
+Lemma mulU_ok a r : a * r / D <= D * D + 2 * D -> mulU a r = Some (a * r / D).
+Proof.
+  intros H. unfold mulU, narrow128. destruct ((a =? 0) || (r =? 0)) eqn:Hz.
+  - assert (Hp : a * r = 0) by (apply N.eq_mul_0; lia). rewrite Hp. reflexivity.
+  - rewrite (fits_big _ H). reflexivity.
+Qed.
+
+Lemma add128_ok a b : a + b <= D * D + 2 * D -> add128 a b = Some (a + b).
+Proof. intros H. unfold add128, narrow128. rewrite (fits_big _ H). reflexivity. Qed.
+
+Lemma sub128_ok a b : b <= a -> sub128 a b = Some (a - b).
+Proof. intros H. unfold sub128. apply N.leb_le in H. rewrite H. reflexivity. Qed.
+
+Lemma frac_le a f : f <= D -> a * f / D <= a.
+Proof.
+  intros H. apply N.div_le_upper_bound; [exact D_nz|]. rewrite (N.mul_comm D a).
+  apply N.mul_le_mono_l. exact H.
+Qed.
+
+Lemma ddiv_le_DD p r : r <> 0 -> p <= D -> p * D / r <= D * D.
+Proof.
+  intros Hr Hp. eapply N.le_trans; [|apply N.mul_le_mono_r; exact Hp].
+  apply N.div_le_upper_bound; [exact Hr|].
+  rewrite <- (N.mul_1_l (p * D)) at 1. apply N.mul_le_mono_r. lia.
+Qed.
+
+Lemma fee_mint_block_safe S Q B p m f r :
+  p <= D -> S + Q <= D -> f <= D ->
+  r = rate_of B (S + Q) -> r < D -> ddiv p r = Some m ->
+  B + p <= S + m + Q /\
+  fee_mint_block S Q B p m f = Some (m - N.min (m * f / D) (required_mint S Q B p m)).
+Proof.
+  intros Hp HC Hf Hr Hlt Hm. apply ddiv_some in Hm. destruct Hm as [Hr0 Hm].
+  rewrite Hr in Hlt. apply rate_below_one in Hlt. destruct Hlt as [HB0 HBC].
+  assert (Hpm : p <= m) by (subst m; apply ddiv_ge; [exact Hr0|]; subst r; apply rate_le_one; lia).
+  assert (HmDD : m <= D * D) by (subst m; apply ddiv_le_DD; assumption).
+  pose proof (frac_le m f Hf) as Hfr.
+  assert (Hle : B + p <= S + m + Q) by lia. split; [exact Hle|].
+  unfold fee_mint_block, peg_fee, required_mint.
+  rewrite mulU_ok by lia. cbn [bind].
+  rewrite add128_ok by lia. cbn [bind]. rewrite add128_ok by lia. cbn [bind].
+  rewrite add128_ok by lia. cbn [bind]. rewrite sub128_ok by exact Hle. cbn [bind].
+  apply sub128_ok. lia.
+Qed.
+
+Lemma fee_unbond_block_safe S Q B amount f r :
+  amount <= D -> S + Q <= D -> f <= D ->
+  r = rate_of B (S + Q) -> r < D ->
+  B <= S + Q /\
+  fee_unbond_block S Q B amount f
+    = Some (amount - N.min (amount * f / D) (required_unbond S Q B)).
+Proof.
+  intros Ha HC Hf Hr Hlt.
+  rewrite Hr in Hlt. apply rate_below_one in Hlt. destruct Hlt as [HB0 HBC].
+  pose proof (frac_le amount f Hf) as Hfr. split; [lia|].
+  unfold fee_unbond_block, peg_fee, required_unbond.
+  rewrite mulU_ok by lia. cbn [bind]. rewrite add128_ok by lia. cbn [bind].
+  rewrite sub128_ok by lia. cbn [bind]. apply sub128_ok. lia.
+Qed.
+
+Lemma fee_conv_block_safe S Q B amount f r :
+  amount <= S -> S + Q <= D -> f <= D ->
+  r = rate_of B (S + Q) -> r < D ->
+  B <= S + Q /\ amount <= S + Q /\
+  fee_conv_block S Q B amount f
+    = Some (amount - N.min (amount * f / D) (required_conv S Q B amount)).
+Proof.
+  intros Ha HC Hf Hr Hlt.
+  rewrite Hr in Hlt. apply rate_below_one in Hlt. destruct Hlt as [HB0 HBC].
+  pose proof (frac_le amount f Hf) as Hfr. split; [lia|]. split; [lia|].
+  unfold fee_conv_block, peg_fee, required_conv.
+  assert (HBz : (B =? 0) = false) by lia. rewrite HBz.
+  rewrite mulU_ok by lia. cbn [bind]. rewrite add128_ok by lia. cbn [bind].
+  rewrite sub128_ok by lia. cbn [bind]. rewrite sub128_ok by lia. cbn [bind].
+  assert (Hq : (S + Q - B) * (S + Q - amount) / B <= D * D).
+  { eapply N.le_trans; [apply N.div_le_upper_bound with (q := (S + Q - B) * (S + Q - amount)); [lia|]|].
+    - rewrite <- (N.mul_1_l ((S + Q - B) * (S + Q - amount))) at 1. apply N.mul_le_mono_r. lia.
+    - apply N.mul_le_mono; lia. }
+  unfold mul_ratio, narrow128. rewrite HBz. rewrite fits_big by lia. cbn [bind].
+  apply sub128_ok. lia.
+Qed.
+
+(** ** handlers *)
+Lemma slashing_of w self h s :
+  query_actual_state w self h = Some s -> slashing w self h = Some (set_h_state h s).
+Proof. unfold slashing. intros ->. reflexivity. Qed.
+
+(** what the bond handler computes for the minted amount *)
+Definition bond_mint (S Q B p r thr f : N) : result N :=
+  do m <- ddiv p r;
+  if r <? thr then fee_mint_block S Q B p m f else Some m.
+
+Lemma mint_path_spec S Q B p r thr f mint :
+  bond_mint S Q B p r thr f = Some mint ->
+  exists m fee,
+    ddiv p r = Some m /\ mint = m - fee /\ fee <= m /\
+    (thr <= r -> fee = 0) /\
+    (r < thr -> fee = N.min (m * f / D) (required_mint S Q B p m) /\ B + p <= S + m + Q) /\
+    fee <= m * f / D /\
+    (r = rate_of B (S + Q) -> r < D \/ B <= S + Q -> B + p <= (S + mint) + Q).
+Proof.
+  unfold bond_mint. intros H. bind_inv H as m Hm. exists m.
+  destruct (r <? thr) eqn:Hthr.
+  - apply fee_mint_block_spec in H. destruct H as (Hle & fee & Hfee & Hfm & ->).
+    exists fee. split; [reflexivity|]. split; [reflexivity|]. split; [exact Hfm|].
+    split; [lia|]. split; [intros _; split; assumption|]. split; [lia|].
+    intros _ _. unfold required_mint in Hfee. lia.
+  - inversion H; subst mint. exists 0. split; [reflexivity|]. split; [lia|]. split; [lia|].
+    split; [reflexivity|]. split; [lia|]. split; [apply N.le_0_l|].
+    intros Hr Hu. apply ddiv_some in Hm. destruct Hm as [Hr0 ->].
+    assert (HBC : B <= S + Q).
+    { destruct Hu as [Hlt|Hu]; [|exact Hu]. rewrite Hr in Hlt. apply rate_below_one in Hlt. lia. }
+    assert (p <= p * D / r); [|lia].
+    apply ddiv_ge; [exact Hr0|]. rewrite Hr. apply rate_le_one. exact HBC.
+Qed.
+
+Theorem bond_peg_fee w h self sender funds h' out s S :
+  execute_bond w h self sender funds BkB = Some (h', out) ->
+  query_actual_state w self h = Some s ->
+  hub_bsei_supply w h = Some S ->
+  let B := hs_bb s in let Q := cb_reqb (h_batch h) in let r := hs_ber s in
+  let thr := hp_thr (h_params h) in let f := hp_pegfee (h_params h) in
+  exists pay m fee dmsgs tok,
+    find_payment (hp_underlying (h_params h)) funds = Some pay /\
+    ddiv (snd pay) r = Some m /\
+    hc_bsei (h_cfg h) = Some tok /\
+    out = dmsgs ++ [MWasm tok (WCw20 (CMint sender (m - fee))) []] /\
+    fee <= m /\
+    (thr <= r -> fee = 0) /\
+    (r < thr -> fee = N.min (m * f / D) (required_mint S Q B (snd pay) m)) /\
+    fee <= m * f / D /\
+    hs_bb (h_state h') = B + snd pay /\ cb_reqb (h_batch h') = Q /\
+    hs_ber (h_state h') = rate_of (B + snd pay) ((S + (m - fee)) + Q) /\
+    (r = rate_of B (S + Q) -> r < D \/ B <= S + Q ->
+     B + snd pay <= (S + (m - fee)) + Q).
+Proof.
+  intros H Hs HS. cbv zeta. unfold execute_bond in H. cbv zeta in H.
+  bind_inv H as dispaddr Hd. check_inv H as Hlen.
+  bind_inv H as pay Hpay. rewrite (slashing_of _ _ _ _ Hs) in H. cbn [bind] in H.
+  cbn [h_state h_cfg h_params h_batch set_h_state] in H.
+  change (hub_bsei_supply w (set_h_state h s)) with (hub_bsei_supply w h) in H. rewrite HS in H.
+  bind_inv H as mint Hmint.
+  change (bond_mint S (cb_reqb (h_batch h)) (hs_bb s) (snd pay) (hs_ber s)
+            (hp_thr (h_params h)) (hp_pegfee (h_params h)) = Some mint) in Hmint.
+  apply mint_path_spec in Hmint.
+  destruct Hmint as (m & fee & Hm & -> & Hfm & Hno & Hyes & Hmax & Hover).
+  bind_inv H as supply Hsup. apply add128_some in Hsup.
+  bind_inv H as s' Hs'. bind_inv Hs' as bb Hbb. bind_inv Hs' as ber Hber.
+  apply add128_some in Hbb. apply exchange_rate_some in Hber. inversion Hs'; subst s'. clear Hs'.
+  bind_inv H as vals Hvals. destruct vals as [|v0 vr]; [discriminate|].
+  bind_inv H as dl Hdl. bind_inv H as tok Htok. inversion H; subst h' out. clear H.
+  cbn [h_cfg set_h_state] in Htok.
+  exists pay, m, fee, (delegate_msgs (v0 :: vr) (snd dl) (fst pay)), tok.
+  cbn [h_state h_batch set_h_state hs_bb hs_ber set_ber set_rates set_bonded].
+  subst bb supply ber.
+  repeat split; try assumption; try reflexivity.
+  intros Hlt. apply Hyes in Hlt. tauto.
+Qed.
+
+(** *** unbond bSei *)
+Definition unbond_awf (S Q B amount r thr f : N) : result N :=
+  if r <? thr then fee_unbond_block S Q B amount f else Some amount.
+
+Lemma unbond_path_spec S Q B amount r thr f awf :
+  unbond_awf S Q B amount r thr f = Some awf ->
+  exists fee,
+    awf = amount - fee /\ fee <= amount /\
+    (thr <= r -> fee = 0) /\
+    (r < thr -> fee = N.min (amount * f / D) (required_unbond S Q B) /\ B <= S + Q) /\
+    fee <= amount * f / D /\
+    (r = rate_of B (S + Q) -> r < D \/ B <= S + Q -> amount <= S ->
+     B <= (S - amount) + (Q + awf)).
+Proof.
+  unfold unbond_awf. intros H. destruct (r <? thr) eqn:Hthr.
+  - apply fee_unbond_block_spec in H. destruct H as (Hle & fee & Hfee & Hfm & ->).
+    exists fee. split; [reflexivity|]. split; [exact Hfm|]. split; [lia|].
+    split; [intros _; split; assumption|]. split; [lia|].
+    intros _ _ Ha. unfold required_unbond in Hfee. lia.
+  - inversion H; subst awf. exists 0. split; [lia|]. split; [lia|]. split; [reflexivity|].
+    split; [lia|]. split; [apply N.le_0_l|].
+    intros Hr Hu Ha.
+    assert (HBC : B <= S + Q); [|lia].
+    destruct Hu as [Hlt|Hu]; [|exact Hu]. rewrite Hr in Hlt. apply rate_below_one in Hlt. lia.
+Qed.
+
+Lemma maybe_undelegate_cases w self h h' msgs :
+  maybe_undelegate w self h = Some (h', msgs) ->
+  (h' = h /\ msgs = []) \/
+  (exists b_und,
+     mulU (cb_reqb (h_batch h)) (hs_ber (h_state h)) = Some b_und /\ b_und <= hs_bb (h_state h) /\
+     hs_bb (h_state h') = hs_bb (h_state h) - b_und /\ cb_reqb (h_batch h') = 0 /\
+     h_wait h' = h_wait h /\ h_cfg h' = h_cfg h).
+Proof.
+  unfold maybe_undelegate. intros H. bind_inv H as passed Hp.
+  destruct (hp_epoch (h_params h) <? passed).
+  - right. unfold process_undelegations in H.
+    bind_inv H as st_und E1. bind_inv H as b_und E2. bind_inv H as claim E3. bind_inv H as ms E4.
+    bind_inv H as bst E5. bind_inv H as bb E6. bind_inv H as id' E7. inversion H; subst h' msgs.
+    apply sub128_some in E6. destruct E6 as [Hle ->].
+    exists b_und. cbn. repeat split; try reflexivity; assumption.
+  - left. inversion H; subst. split; reflexivity.
+Qed.
+
+Theorem unbond_peg_fee w h self amount user h' out s S :
+  execute_unbond w h self amount user = Some (h', out) ->
+  query_actual_state w self h = Some s ->
+  hub_bsei_supply w h = Some S ->
+  let B := hs_bb s in let Q := cb_reqb (h_batch h) in let r := hs_ber s in
+  let thr := hp_thr (h_params h) in let f := hp_pegfee (h_params h) in
+  let id := cb_id (h_batch h) in
+  exists fee msgs tok,
+    fee <= amount /\
+    (thr <= r -> fee = 0) /\
+    (r < thr -> fee = N.min (amount * f / D) (required_unbond S Q B)) /\
+    fee <= amount * f / D /\
+    amount <= S /\
+    (* the claim recorded for the user is the amount less the fee *)
+    h_wait h' = set eqbAN (h_wait h) (user, id)
+                  (fst (wait_of h user id) + (amount - fee), snd (wait_of h user id)) /\
+    hc_bsei (h_cfg h) = Some tok /\
+    out = msgs ++ [MWasm tok (WCw20 (CBurn amount)) []] /\
+    (* pool after the fee step (before an epoch undelegation, if one is due) *)
+    (r = rate_of B (S + Q) -> r < D \/ B <= S + Q ->
+     B <= (S - amount) + (Q + (amount - fee))) /\
+    (* final state: either no undelegation was due ... or the open batch was priced and closed *)
+    ((hs_bb (h_state h') = B /\ cb_reqb (h_batch h') = Q + (amount - fee)) \/
+     (hs_bb (h_state h') =
+        B - (Q + (amount - fee)) * rate_of B ((S - amount) + (Q + (amount - fee))) / D /\
+      cb_reqb (h_batch h') = 0)).
+Proof.
+  intros H Hs HS. cbv zeta. unfold execute_unbond in H. cbv zeta in H.
+  rewrite (slashing_of _ _ _ _ Hs) in H. cbn [bind] in H.
+  cbn [h_state h_cfg h_params h_batch set_h_state] in H.
+  change (hub_bsei_supply w (set_h_state h s)) with (hub_bsei_supply w h) in H. rewrite HS in H.
+  cbn [bind] in H.
+  bind_inv H as awf Hawf.
+  change (unbond_awf S (cb_reqb (h_batch h)) (hs_bb s) amount (hs_ber s)
+            (hp_thr (h_params h)) (hp_pegfee (h_params h)) = Some awf) in Hawf.
+  apply unbond_path_spec in Hawf.
+  destruct Hawf as (fee & -> & Hfm & Hno & Hyes & Hmax & Hover).
+  bind_inv H as reqb Hreqb. apply add128_some in Hreqb.
+  bind_inv H as h2 Hh2.
+  bind_inv H as supply' Hsup. apply sub128_some in Hsup. destruct Hsup as [HaS ->].
+  bind_inv H as ber Hber. apply exchange_rate_some in Hber.
+  bind_inv H as rr Hrr. destruct rr as [h4 msgs].
+  bind_inv H as tok Htok. inversion H; subst h' out. clear H.
+  (* the wait list *)
+  unfold add_wait in Hh2. unfold wait_of in *. cbn [h_wait set_h_state] in Hh2.
+  destruct (match get eqbAN (h_wait h) (user, cb_id (h_batch h)) with
+            | Some x => x | None => (0, 0) end) as [x y] eqn:Hxy.
+  bind_inv Hh2 as x' Hx'. apply add128_some in Hx'. cbn [bind] in Hh2. inversion Hh2; subst h2 x'.
+  clear Hh2.
+  apply maybe_undelegate_cases in Hrr.
+  exists fee, msgs, tok. cbn [fst snd].
+  split; [exact Hfm|]. split; [exact Hno|]. split; [intros Hlt; apply Hyes in Hlt; tauto|].
+  split; [exact Hmax|]. split; [exact HaS|].
+  destruct Hrr as [[-> ->]|(b_und & Hmul & Hle & Hbb & Hrq & Hw & Hcfg)].
+  - cbn [h_cfg set_h_batch set_h_state set_h_wait] in Htok.
+    cbn. split; [reflexivity|]. split; [exact Htok|]. split; [reflexivity|].
+    split; [intros Hr Hu; apply Hover; assumption|]. left. split; [reflexivity | exact Hreqb].
+  - cbn [h_state h_batch h_wait h_cfg set_h_batch set_h_state set_h_wait hs_bb hs_ber set_ber set_rates
+         cb_reqb] in *.
+    split; [exact Hw|]. split.
+    { rewrite Hcfg in Htok. exact Htok. }
+    split; [reflexivity|]. split; [intros Hr Hu; apply Hover; assumption|].
+    right. apply mulU_some in Hmul. subst b_und reqb ber. split; [exact Hbb | exact Hrq].
 Qed.
